@@ -82,6 +82,37 @@ pub fn run_c06(o: &Opts) -> Report {
             }
         }
     }
+    // one-field near misses, BOTH orders of == (model mutation testing: an asymmetric comparison of the image index --
+    // `<=` for `==` -- survived because the perturbed side always came second): images that differ in the index only,
+    // intervals, a set against a proper superset, a sequence against a proper extension; bare and nested
+    {
+        let both = |rep: &mut Report, cases: &mut Vec<String>, a: &Term, b: &Term, rng: &mut Rng| {
+            push_c06(rep, cases, a, b, "field-near-miss", rng);
+            push_c06(rep, cases, b, a, "field-near-miss", rng);
+            let z = g.atom(rng);
+            push_c06(rep, cases, &Term::new_product(vec![z.clone(), a.clone()]), &Term::new_product(vec![z.clone(), b.clone()]), "field-near-miss-nested", rng);
+            push_c06(rep, cases, &Term::new_set_extension(vec![b.clone(), z.clone()]), &Term::new_set_extension(vec![z.clone(), a.clone()]), "field-near-miss-nested", rng);
+        };
+        for round in 0..3 {
+            let v: Vec<Term> = (0..(1 + round)).map(|_| g.term(&mut rng, 3)).collect();
+            for (i, j) in [(0usize, 1usize), (0, v.len()), (1.min(v.len()), 0)] {
+                if i == j {
+                    continue;
+                }
+                both(&mut rep, &mut cases, &Term::ImageExtension(i, v.clone()), &Term::ImageExtension(j, v.clone()), &mut rng);
+                both(&mut rep, &mut cases, &Term::ImageIntension(i, v.clone()), &Term::ImageIntension(j, v.clone()), &mut rng);
+            }
+            let (x, y) = (rng.below(1000), rng.below(1000) + 1000);
+            both(&mut rep, &mut cases, &Term::new_interval(x), &Term::new_interval(y), &mut rng);
+            let extra = g.term(&mut rng, 3);
+            let mut w = v.clone();
+            w.push(extra);
+            both(&mut rep, &mut cases, &Term::new_set_intension(v.clone()), &Term::new_set_intension(w.clone()), &mut rng);
+            both(&mut rep, &mut cases, &Term::new_conjunction(v.clone()), &Term::new_conjunction(w.clone()), &mut rng);
+            both(&mut rep, &mut cases, &Term::new_product(v.clone()), &Term::new_product(w.clone()), &mut rng);
+            both(&mut rep, &mut cases, &Term::new_conjunction_sequential(v.clone()), &Term::new_conjunction_sequential(w.clone()), &mut rng);
+        }
+    }
     rep.shards = write_shards(&o.outdir, "C06", "Nv.Run.TermRun", "mismatches_c06", "c06case", "N_scope", &cases, o.shards, "").unwrap();
     rep
 }
